@@ -83,4 +83,14 @@ for _p, _c in [("C01", "roundtrip"), ("C02", "stdjson"), ("C16", "format")]:
     REGISTRY[_p] = dict(run=ser_run(_c), replay=doc_replay, level="model_checking", assumptions=JSON_ASSUME, engine="tlc-json",
                         level_text=_JT[_p], level_note=JSON_NOTE, technique=JSON_TECH)
 
+_JT2 = {
+    "C03": "Every valid document TLC derives from the JsonRef machine inside the bounds (all shapes, whitespace in every gap, prefix text, duplicate keys, every escape spelling of every string class, every number spelling) is parsed by the real parser and compared with TLC's reference tree and with encoding/json + strconv; every code point in every escape spelling.",
+    "C04": "Exhaustive short byte strings and random ones through both entry points (no panic / hang / mixed outcome / nondeterminism), every cut point of every serialised TLC document rejected, every kind of ill-formed UTF-8 at every position rejected, ParseFile == ParseObject.",
+    "C20": "For every TLC-generated text with one injected syntax error and every newline distribution inside the bounds, a cited line must be the line of the detecting character (window rule, named-character rule, and exact byte through the parser hook).",
+}
+for _p, _r in [("C03", jsonfam.run_parse), ("C04", jsonfam.run_total), ("C20", jsonfam.run_errline)]:
+    REGISTRY[_p] = dict(run=_r, replay=doc_replay, level="model_checking", assumptions=JSON_ASSUME, engine="tlc-json",
+                        level_text=_JT2[_p], level_note=JSON_NOTE, technique=JSON_TECH)
+ENGINES[-1]["serves_properties"] += ["C03", "C04", "C20"]
+
 PENDING = {}
